@@ -122,6 +122,10 @@ struct v_req {
     uint8_t  kind;            /* which sender is being proved: V_K_*  */
     /* Emit under proof: when set, Probe/Train/ACK frames are checked against the descriptors of this frame */
     const uint8_t *emit_frame; uint32_t emit_n;
+    /* observations the QueryResp under proof must list (snapshot taken by the harness), newest first */
+    struct v_obs { uint8_t type_be[2]; ethernet_address_t real, src, dst; } obs[8];
+    uint32_t obs_n;           /* observations recorded before the Query */
+    uint32_t obs_cap;         /* descriptors one QueryResp can carry: (MTU - 34) / 20 */
     uint32_t tx_base;         /* g_led.tx_attempts when the sender under proof was entered */
     uint32_t sleep_base;      /* g_led.sleep_calls at that point */
 };
@@ -134,6 +138,7 @@ extern struct v_req g_req;
 #define V_K_QLTV   4
 #define V_K_ANY    5   /* generic well-formedness only                                */
 
+#include "v_nocheck_push.h"
 static inline bool v_mac_eq(const uint8_t *a, const uint8_t *b) {
     return a[0] == b[0] && a[1] == b[1] && a[2] == b[2] && a[3] == b[3] && a[4] == b[4] && a[5] == b[5];
 }
@@ -158,6 +163,7 @@ static inline bool v_cfg_ok(const struct v_cfg *c) {
     return true;
 }
 
+#include "v_nocheck_pop.h"
 void v_env_reset(void);       /* zero the ledger, start the clock at g_cfg.clk_* */
 
 /* current instant of the model clock (no advance) */
